@@ -23,7 +23,8 @@ RULE = ('states = every non-empty subset of the 6 RPCs x generate_omitted_as_int
 P = 'acme.sel.v1'
 Q = lambda n: f'.{P}.{n}'
 DOM = 'acme.googleapis.com'
-RPCS = [('Main', 'GetA'), ('Main', 'GetB'), ('Main', 'ListItems'), ('Main', 'RunLro'), ('Main', 'GetTree'), ('Side', 'Touch')]
+RPCS = [('Main', 'GetA'), ('Main', 'GetB'), ('Main', 'ListItems'), ('Main', 'RunLro'), ('Main', 'GetTree'), ('Side', 'Touch'),
+        ('Side', 'GetA')]        # the second service has an RPC with the short name of one of the first
 
 
 def graph():
@@ -31,11 +32,16 @@ def graph():
                                                      enum('UnusedShade', 'UNUSED_SHADE_UNSPECIFIED', 'US1')])
     items = file('acme/sel/v1/items.proto', P, messages=[
         message('PagedItem', [field('name', 1, 'string'), field('tone', 2, 'enum:' + Q('ItemTone'))]),
-        message('Widget', [field('name', 1, 'string'), field('part', 2, Q('WidgetPart'))], resource=(f'{DOM}/Widget', 'widgets/{widget}')),
+        # a chain of resource references: TouchRequest.name -> Widget, Widget.made_by -> Factory (-> its enum)
+        message('Widget', [field('name', 1, 'string'), field('part', 2, Q('WidgetPart')), field('made_by', 3, 'string', ref=f'{DOM}/Factory')],
+                resource=(f'{DOM}/Widget', 'widgets/{widget}')),
+        message('Factory', [field('name', 1, 'string'), field('country', 2, 'enum:' + Q('FactoryCountry'))],
+                resource=(f'{DOM}/Factory', 'factories/{factory}')),
         message('WidgetPart', [field('p', 1, 'string')]),
         message('Gizmo', [field('name', 1, 'string')], resource=(f'{DOM}/Gizmo', 'widgets/{widget}/gizmos/{gizmo}')),
         message('OnlyHere', [field('x', 1, 'string')])],
-        enums=[enum('ItemTone', 'ITEM_TONE_UNSPECIFIED', 'LOUD'), enum('UnusedEnum', 'UNUSED_ENUM_UNSPECIFIED', 'U1')])
+        enums=[enum('ItemTone', 'ITEM_TONE_UNSPECIFIED', 'LOUD'), enum('UnusedEnum', 'UNUSED_ENUM_UNSPECIFIED', 'U1'),
+               enum('FactoryCountry', 'FACTORY_COUNTRY_UNSPECIFIED', 'FC1')])
     mf, me = map_field(Q('Forest'), 'by_name', 2, 'string', Q('Tree'))
     parts_f, parts_e = map_field(Q('A'), 'parts', 5, 'string', Q('Part'))
     msgs = [
@@ -61,8 +67,10 @@ def graph():
         message('Part', [field('maker', 1, Q('Maker'))]), message('Maker', [field('m', 1, 'string')]),
         message('TouchRequest', [field('name', 1, 'string', ref=f'{DOM}/Widget'), field('parent', 2, 'string', child_ref=f'{DOM}/Gizmo')]),
         message('Orphan', [field('o', 1, 'string')], nested=[message('OrphanInner', [field('i', 1, 'string')])]),
+        message('GetSideARequest', [field('name', 1, 'string')]),
+        message('SideA', [field('name', 1, 'string'), field('era', 2, 'enum:' + Q('SideEra'))]),
     ]
-    enums = [enum('DeepEnum', 'DEEP_ENUM_UNSPECIFIED', 'D1'), enum('OrphanEnum', 'ORPHAN_ENUM_UNSPECIFIED', 'O1')]
+    enums = [enum('DeepEnum', 'DEEP_ENUM_UNSPECIFIED', 'D1'), enum('OrphanEnum', 'ORPHAN_ENUM_UNSPECIFIED', 'O1'), enum('SideEra', 'SIDE_ERA_UNSPECIFIED', 'OLD')]
     main = service('Main', [
         method('GetA', Q('GetARequest'), Q('A'), http=('get', '/v1/{name=as/*}'), sigs=['name']),
         method('GetB', Q('GetBRequest'), Q('B'), http=('get', '/v1/{name=bs/*}')),
@@ -70,7 +78,8 @@ def graph():
         method('RunLro', Q('RunLroRequest'), OPERATION, http=('post', '/v1/{name=as/*}:run', '*'), lro=('LroResult', 'LroMeta')),
         method('GetTree', Q('GetTreeRequest'), Q('Tree'), http=('get', '/v1/{name=trees/*}')),
     ])
-    side = service('Side', [method('Touch', Q('TouchRequest'), EMPTY, http=('post', '/v1/{name=widgets/*}:touch', '*'))])
+    side = service('Side', [method('Touch', Q('TouchRequest'), EMPTY, http=('post', '/v1/{name=widgets/*}:touch', '*')),
+                            method('GetA', Q('GetSideARequest'), Q('SideA'), http=('get', '/v1/{name=sideas/*}'))])
     svc = file('acme/sel/v1/svc.proto', P, messages=msgs, enums=enums, services=[main, side])
     std = desc.std_dep_names()
     kinds.dependency.extend(std)
